@@ -292,7 +292,8 @@ pub fn pick_position(rng: &mut Rng, sparse: bool, promo: bool) -> crate::rules::
     if sparse {
         return if rng.chance(1, 2) { gen::sparse_position(rng) } else { gen::advanced_pawn_position(rng) };
     }
-    match rng.below(9) {
+    match rng.below(10) {
+        9 => gen::discovered_mate_position(rng).unwrap_or_else(|| gen::sparse_position(rng)),
         8 => lopsided_position(rng).0,
         2 | 3 => gen::advanced_pawn_position(rng),
         0 => {
